@@ -478,6 +478,14 @@ def run(ctx: Ctx):
                                  f'{j["logic"]}: the tree of a finished tableau violates the well-formedness hypothesis of C19_text_faithful '
                                  f'(depths / closure node last on closed leaves); the oracle found no clause of the property violated',
                                  dict(job=j, input=job_text(j), order_seed=sd, correspondence='render/tree-wf', tree=o['tree'][:3000]), found_input=False)
+                if ok and len(a.split(' ')) > 3 and a.split(' ')[3] != '1':
+                    corr['tree_not_regular'] += 1
+                    if clean:
+                        ctx.fail(f'C19:corr:tree-regular:{j["logic"]}',
+                                 f'{j["logic"]}: a node of a finished tableau violates the regularity hypothesis of C19_render_injective '
+                                 f'(node classes of proof/common.py: paired access worlds, constructible sentence, quit flag only on the bare '
+                                 f'flag node, no empty node); the oracle found no clause of the property violated',
+                                 dict(job=j, input=job_text(j), order_seed=sd, correspondence='render/tree-regular', tree=o['tree'][:3000]), found_input=False)
                 if ok and got == text:
                     corr['render_agree'] += 1
                     continue
@@ -536,6 +544,8 @@ def run(ctx: Ctx):
         'html / latex writers, the doctree builder and translators are not modelled; "no exception" and "twice identical" are observations.',
         'C19_text_faithful assumes RTree.WF (only the root has depth 0; the closure node is the bare last node of exactly the closed leaves); '
         'the driver evaluates WF on every real tree sent (coverage key correspondence.tree_not_wf).',
+        'C19_render_injective additionally assumes RNode.regular of every node (the node classes of proof/common.py with constructible sentences); '
+        'the driver evaluates it on every real tree sent (coverage key correspondence.tree_not_regular).',
         'str(int) of a world number with more than 4300 digits would raise; not modelled.']
     for j, o, sd in good[:400:40]:
         ctx.sample(dict(input=job_text(j), order_seed=sd, branches=o['nbranches'], nodes=o['tree_nodes'],
